@@ -263,6 +263,12 @@ def r4(ctx):
                 n += 1
                 ctx.check("C07.R4", norm(x.func.value) == "self.reader", key(f, norm(x)), site(f, x), "Body refills from `%s`, not from its framed reader" % norm(x.func.value), "self.reader.read")
     ctx.floor("C07.R4", "refill sites", n, 2)
+    # iteration yields whole lines: __next__ hands on what an *unbounded* readline() returns (a size cap would cut a long line
+    # into fragments, unlike any file object) and ends on the empty read
+    fn = ctx.fn(repo.func(BODY + ".Body.__next__"))
+    rl = [c for c in method_calls(fn, "readline") if isinstance(c.func.value, ast.Name) and c.func.value.id == "self"]
+    ctx.check("C07.R4", len(rl) == 1 and all((not c.args or const(c.args[0], NO) in (None, -1)) and not c.keywords for c in rl), key(fn, "iteration-whole-lines"), site(fn, rl[0] if rl else None),
+              "Body.__next__ does not return one unbounded self.readline(): iterating wsgi.input would yield fragments of long lines (io.BytesIO yields whole lines)", "next() = readline()")
     # readers themselves only use their unreader through read/unread (C06.R4) -- and LengthReader keeps its own length
     f = repo.func(BODY + ".LengthReader.__init__")
     ctx.check("C07.R4", any(isinstance(s, ast.Assign) and any(tail(t) == "length" for t in s.targets) and isinstance(s.value, ast.Name) and s.value.id == f.params[2] for s in walk_own(f.node)),
